@@ -574,10 +574,6 @@ public:
 	void Write(NiOStream& stream);
 
 	void Sync(NiStreamReversible& stream) {
-#ifdef NIFLY_VERIF_HOOKS
-		if (niVerifHooks().onStringRef)
-			niVerifHooks().onStringRef(stream.asRead() ? 0 : 1, this);
-#endif
 		if (auto istream = stream.asRead())
 			Read(*istream);
 		else if (auto ostream = stream.asWrite())
